@@ -105,6 +105,15 @@ s_mkaddrs_static(int port)
 }
 void * s_network_connect(void * a, int (*cb)(void *, int), void * c) { return (network_connect(a, cb, c)); }
 void s_network_connect_cancel(void * c) { network_connect_cancel(c); }
+void *
+s_network_connect_timeo(void * a, long sec, int (*cb)(void *, int), void * c)
+{
+	struct timeval tv;
+
+	tv.tv_sec = sec;
+	tv.tv_usec = 0;
+	return (network_connect_timeo(a, &tv, cb, c));
+}
 
 void * s_nr_init(int s) { return (netbuf_read_init(s)); }
 void s_nr_peek(void * R, uint8_t ** d, size_t * l) { netbuf_read_peek(R, d, l); }
